@@ -117,7 +117,17 @@ class SimFuture(_REAL_FUTURE):  # type: ignore[misc]
         _tl.rank = self._sim_owner
         try:
             for cb in cbs:
-                cb(self)
+                try:
+                    cb(self)
+                except SimAbort:
+                    raise
+                except BaseException as e:  # noqa: BLE001
+                    # torch logs and swallows errors raised by done-callbacks
+                    # (they run on a foreign thread); here they are recorded
+                    if sim is not None:
+                        sim.violation('future_callback_raised',
+                                      error=repr(e)[:300],
+                                      label=getattr(self, '_sim_label', '?'))
         finally:
             _tl.rank = prev
 
